@@ -41,7 +41,7 @@ fn lines(src: &str) -> String {
             k if k.is_trivia() => continue,
             _ => {}
         }
-        if last > first { for i in first..=last { if i < n { skip[i] = true; } } }
+        if last > first || src[a..b].contains('\n') { for i in first..=last { if i < n { skip[i] = true; } } }
         if first < n { kinds[first].push(t.kind as u16); }
     }
     (0..n).map(|i| {
